@@ -20,6 +20,7 @@ import (
 type vScn struct {
 	name    string
 	horizon time.Duration
+	capD    int // if > 0: deviation bounds above this are lowered to it in the quick tier (large scenarios)
 	build   func() (root func(), judge func(res *vsched.Result) (outcome string, bad []vScnBad))
 }
 
@@ -205,8 +206,12 @@ func vSchedRunPlans(c *vCtx, prop string, scns []vScn, quick, thorough []vPlan) 
 		for _, pl := range plans {
 			per := time.Until(end) / time.Duration(left)
 			left--
-			st := vExplore(c, prop, scn, pl.model, pl.bound, time.Now().Add(per))
-			vMergeStats(c, scn.name, pl.model, pl.bound, st)
+			bound := pl.bound
+			if !c.thorough() && scn.capD > 0 && bound > scn.capD {
+				bound = scn.capD
+			}
+			st := vExplore(c, prop, scn, pl.model, bound, time.Now().Add(per))
+			vMergeStats(c, scn.name, pl.model, bound, st)
 		}
 	}
 	c.res.Bounds["cost_models"] = "D = every deviation from the default scheduler costs 1; P = only preemptions of a runnable thread and early timers cost (CHESS)"
